@@ -94,12 +94,15 @@ DEVIATIONS = {
     'neg': {'negate': True},
     'driftdn': {'drift': -2.5},            # oscillation riding on a falling flank steeper than its own slope (inverted flanks)
     'driftup': {'drift': 2.5},
+    'readonly': {'layout': 'readonly'},    # the caller's array is not writeable
+    'fsfloat': {'argtypes': 'float-list'},  # fs = 64.0, f_range = [6, 14] (a list)
+    'fsnp': {'argtypes': 'numpy'},          # fs = np.int64(64), f_range = (np.float64(6), np.float64(14))
     'strided': {'layout': 'strided'},      # the signal is a non-contiguous view into a larger array
     'int': {'layout': 'int'},              # integer dtype (ADC counts)
     'int16big': {'layout': 'int16big'},    # int16 at ~90 % of full scale (C09 only: arithmetic wraps identically on both sides)
 }
 # deviations that exclude each other (same option)
-GROUPS = [('driftdn', 'driftup', 'dc5', 'neg'), ('strided', 'int', 'int16big'), ('nc2', 'nc3', 'nc4', 'ns.5', 'ns.375'), ('b0', 'b1', 'b5', 'b12'), ('thr1', 'nothr'), ('band5_12', 'band7_16', 'fs128'),
+GROUPS = [('driftdn', 'driftup', 'dc5', 'neg'), ('strided', 'int', 'int16big', 'readonly'), ('fsfloat', 'fsnp', 'fs128', 'band5_12', 'band7_16'), ('nc2', 'nc3', 'nc4', 'ns.5', 'ns.375'), ('b0', 'b1', 'b5', 'b12'), ('thr1', 'nothr'), ('band5_12', 'band7_16', 'fs128'),
           ('x1024', 'x2-10', 'x.125', 'x2-40', 'x2+40')]
 
 
@@ -125,7 +128,7 @@ def resolve(devs):
     """Turn a tuple of deviation names into concrete call parameters."""
     o = {'fs': 64, 'f_range': (6, 14), 'center_extrema': 'peak', 'burst_method': 'cycles',
          'filter_kwargs': None, 'boundary': None, 'return_samples': True, 'thr': 0,
-         'scale': 1.0, 'offset': 0.0, 'negate': False, 'layout': 'plain', 'drift': 0.0}
+         'scale': 1.0, 'offset': 0.0, 'negate': False, 'layout': 'plain', 'drift': 0.0, 'argtypes': None}
     for d in devs:
         o.update(copy.deepcopy(DEVIATIONS[d]))
     return o
@@ -152,12 +155,25 @@ def call_kwargs(o):
     return kw
 
 
+def call_fs(o):
+    """(fs, f_range) in the argument types requested by the option set."""
+    if o.get('argtypes') == 'float-list':
+        return float(o['fs']), [float(v) for v in o['f_range']]
+    if o.get('argtypes') == 'numpy':
+        return np.int64(o['fs']), tuple(np.float64(v) for v in o['f_range'])
+    return o['fs'], o['f_range']
+
+
 def make_signal(word, o):
     x = word_signal(word, scale=o['scale'], offset=o['offset'], negate=o['negate'])
     if o.get('drift'):
         x = x + o['drift'] * np.arange(len(x))
     if o.get('layout') == 'int16big':
         return (x * 10000).astype(np.int16)      # ~90 % of full scale: peak-to-trough swings overflow int16
+    if o.get('layout') == 'readonly':
+        x = np.array(x, dtype=float)
+        x.setflags(write=False)
+        return x
     if o.get('layout') == 'strided':
         big = np.empty((len(x), 3))
         big[:] = 99.
